@@ -353,7 +353,7 @@ fn shape_trees_exact(internal: usize) -> Vec<String> {
   let mut out = vec![];
   for e in shape_trees_exact(internal - 1) {
     out.push(format!("Main.id({e})"));
-    out.push(format!("{{ let z = 1; {e} }}"));
+    out.push(format!("{{ let z{internal} = 1; {e} }}"));
     out.push(format!("Main.app(() -> {e})"));
   }
   for left in 0..internal {
@@ -694,7 +694,7 @@ fn main() {
       "mutants_and_caught_per_fault_kind": kinds.iter().map(|(k, (a, b))| (k.to_string(), json!([a, b]))).collect::<BTreeMap<_, _>>(),
       "full_pipeline_compile_checks": full_compiles.load(Ordering::Relaxed),
       "inference_shapes": {"trees_with_wrong_leaf_checked": shapes_checked.load(Ordering::Relaxed), "contexts": shape_contexts.len(), "max_internal_nodes_all_contexts": max_internal, "internal_nodes_first_two_contexts": deep_internal, "well_typed_twin_rejected_too": shapes_vacuous.load(Ordering::Relaxed),
-        "grammar": "E ::= Option.None() | Option.Some(1) | Option.Some(\"oops\") | Main.id(E) | { let z = 1; E } | Main.app(() -> E) | if c {E} else {E} | match o {None -> E, Some(_) -> E} | Main.first(E, E)"},
+        "grammar": "E ::= Option.None() | Option.Some(1) | Option.Some(\"oops\") | Main.id(E) | { let z<depth> = 1; E } | Main.app(() -> E) | if c {E} else {E} | match o {None -> E, Some(_) -> E} | Main.first(E, E)"},
       "exhaustive": true,
     }),
     vec![
